@@ -44,10 +44,11 @@ ASSUMPTIONS = ["X25519, HMAC and HKDF in ipv8_rust_tunnels are trusted",
 REACH = ["hop_appended_honest", "keys_equal_checked", "retry_happened", "answer_ignored_by_originator", "dup_answer", "fault:flip_key",
          "fault:flip_auth", "fault:flip_ident", "fault:flip_cid", "fault:flip_cand", "fault:swap_ident", "fault:swap_cid", "fault:swap_cid_exit",
          "fault:replay_old", "fault:subst_key", "fault:subst_key_nocand", "crafted_answer_rejected", "subst_accepted_but_underivable", "hops:3",
-         "extend_waits_for_peer_lookup", "join_policy_suspended", "fault:swap_answer", "answer_relabelled_for_circuit_built_in_same_round"]
+         "extend_waits_for_peer_lookup", "join_policy_suspended", "fault:swap_answer", "answer_relabelled_for_circuit_built_in_same_round", "fault:bad_cand_key",
+         "required_exit_known_under_stale_address"]
 
 KINDS = ["flip_key", "flip_auth", "flip_ident", "flip_cid", "flip_cand", "swap_ident", "swap_cid", "swap_cid_exit", "replay_old",
-         "subst_key", "subst_key_nocand", "dup_answer", "swap_answer"]
+         "subst_key", "subst_key_nocand", "dup_answer", "swap_answer", "bad_cand_key"]
 
 
 def cases(tier: str, base_seed: int):  # noqa: ANN201
@@ -68,6 +69,10 @@ def cases(tier: str, base_seed: int):  # noqa: ANN201
             n += 1
             yield {"seed": base_seed + n, "knobs": {"dup": dup, "lat_jit": 0.01}, "hops": hops, "nodes": 5, "circuits": 3, "nht": 10,
                    "who": None, "faults": [], "join_delay": delay}
+    for hops in (2, 3):
+        n += 1
+        yield {"seed": base_seed + n, "knobs": {}, "hops": hops, "nodes": 6, "circuits": 2, "nht": 10, "who": None, "faults": [],
+               "stale_exit": True}
     for hops in (1, 2):
         for ncirc in (3, 6):
             n += 1
@@ -104,7 +109,9 @@ def cases(tier: str, base_seed: int):  # noqa: ANN201
             case["blind"] = rng.choice([0.05, 0.15, 0.5, 1.5, 4.0])
         if rng.random() < 0.3:
             case["join_delay"] = rng.choice([0.01, 0.05, 0.3])
-        if rng.random() < 0.25 and not case.get("blind"):
+        if rng.random() < 0.15 and not case.get("blind") and case["hops"] > 1:
+            case["stale_exit"] = True
+        elif rng.random() < 0.25 and not case.get("blind"):
             case["rounds"] = True
             case["circuits"] = rng.choice([2, 3, 6])
         yield case
@@ -269,6 +276,11 @@ def execute(case: dict) -> dict:  # noqa: C901, PLR0915
                           f"selected peer {holder.name if holder else None} holds no entry with these session keys")
             elif entry is not None and kbytes(entry.hop.keys) == kbytes(hop.keys):
                 verified_routes.append((onode, self, idx))     # a properly routed hop: it must stay that way
+            elif idx >= 1 and entry is None and not case["knobs"].get("loss") and not case["knobs"].get("tail_p"):
+                # a hop BEHIND the first one is only a hop of this circuit if the previous hops relay to it
+                c.violate("manipulated_answer", "appended_hop_not_reachable_through_previous_hops",
+                          f"hop {idx + 1} of circuit {self.circuit_id} ({holder.name if holder else None}) was accepted (manipulations on this "
+                          f"answer: {kinds}), but the circuit's route does not lead to it: {why}")
             elif "swap_answer" in kinds:
                 # the answer was made for ANOTHER circuit of this originator at the same hop and merely re-labelled: the peer does
                 # hold these keys, but under the other circuit's id - this circuit's route leads to an entry with other keys
@@ -366,6 +378,18 @@ def execute(case: dict) -> dict:  # noqa: C901, PLR0915
                         payload.circuit_id = others[bit % len(others)]
                     else:
                         payload.circuit_id ^= 0x10
+                elif kind == "bad_cand_key":
+                    # the hop (it holds the session keys) sends an otherwise genuine answer whose candidate list - correctly encrypted -
+                    # starts with a key that does not parse
+                    es = node.ov.exit_sockets.get(payload.circuit_id)
+                    if es is None or not isinstance(payload, CreatedPayload):
+                        craft_now[0] = None
+                        return inner(target_addr, payload)
+                    real = [p2.public_key.key_to_bin() for p2 in node.ov.get_candidates(1) if p2.public_key.key_to_bin() != node.ov.my_peer.public_key.key_to_bin()]
+                    bad = (b"LibNaCLPK:" + bytes(10 + bit % 40), b"garbage-that-is-no-key", b"LibNaCLPK:")[bit % 3]
+                    # (relay candidates, then one entry twice in a row as separator, then exit candidates: the bad key leads both)
+                    lst = [bad, *real[:2], real[0], real[0], bad, *real[:3]] if real else [bad]
+                    payload.candidates_enc = es.hop.keys.encrypt_str(node.ov.serializer.pack("varlenH-list", lst), 0)
                 elif kind == "swap_answer":
                     others = sorted((kk, v[0]) for kk, v in old_answers.items() if kk != key and kk[0] == key[0])
                     if not others:
@@ -489,6 +513,8 @@ def execute(case: dict) -> dict:  # noqa: C901, PLR0915
             if os.environ.get("C08_DEBUG"):
                 print("SWAP wire", pkt.src_node, "->", rcv.name if rcv else None, "cid", cid, "->", ncid, "cands", others,
                       "exit@rcv", sorted(rcv.ov.exit_sockets) if rcv else None, "t=%.2f" % world.loop.time())
+        elif kind == "bad_cand_key":
+            return None          # (needs the hop's session keys: only the misbehaving node can do it)
         elif kind == "swap_answer":
             # the answer is re-labelled (circuit id AND identifier, both in the clear) as the answer to another create that the same
             # originator has outstanding at the same hop - e.g. a circuit built in the same round
@@ -575,6 +601,13 @@ def execute(case: dict) -> dict:  # noqa: C901, PLR0915
             # the periodic do_circuits task replaces those that fail)
             o.call(o.ov.build_tunnels, hops)
             circs.extend(o.ov.circuits.values())
+        if case.get("stale_exit") and hops > 1 and required is None:
+            # history: the required exit X moved; the originator still has its OLD address, where another tunnel node Z lives now; the
+            # relays know X's present address
+            from ipv8.peer import Peer
+            xs, zs = tw.nodes[-1], tw.nodes[-2]
+            required = Peer(xs.ov.my_peer.public_key.key_to_bin(), zs.address)
+            world.probe("required_exit_known_under_stale_address")
         for _ in range(0 if case.get("rounds") else case["circuits"]):
             circs.append(o.call(o.ov.create_circuit, hops, required_exit=required) if required is not None
                          else o.call(o.ov.create_circuit, hops))
